@@ -173,7 +173,7 @@ def _msg_abs():
 def _msg_rel():
     return st.one_of(
         st.tuples(st.just("w"), st.integers(1, 9)),
-        st.tuples(st.just("w"), st.integers(1, 9)),
+        st.tuples(st.just("w"), st.one_of(st.integers(1, 9), st.integers(0, 2))),        # (a zero-tick wait is a legal message)
         st.tuples(st.just("on"), _CH, _P, st.integers(1, 127)),
         st.tuples(st.just("off"), _CH, _P),
         st.tuples(st.just("off"), _CH, _P),
